@@ -247,4 +247,865 @@ theorem kline_fields (K : Nat) (hK : 0 < K) (offs : List Nat) (entries : List (L
   intro l _
   cases kCR K entries <;> rfl
 
+
+theorem dropCR_noCR (x : Bytes) (h : ∀ b ∈ x, b ≠ 13) : dropCR x = x := by
+  unfold dropCR
+  split
+  · rename_i h13
+    exact absurd rfl (h 13 (List.mem_of_getLast? h13))
+  · rfl
+
+/-- **C04.kline_fields_lf** — plain LF text: field j of every entry is the j-th source line without its `offs[j]` header bytes -/
+theorem kline_fields_lf (K : Nat) (hK : 0 < K) (offs : List Nat) (entries : List (List Bytes))
+    (h : CleanTable 10 K entries) (hnocr : NoCRTable entries) (j : Nat) (hj : j < K) (hjo : j < offs.length) :
+    (kExt K offs entries).fieldText j = entries.map (fun l => (l.getD j []).drop (offs.getD j 0)) := by
+  rw [kline_fields K hK offs entries h j hj hjo]
+  apply List.map_congr_left
+  intro l hl
+  have hjl : j < l.length := by rw [(h l hl).1]; exact hj
+  have : dropCR (l.getD j []) = l.getD j [] := by
+    apply dropCR_noCR
+    intro b hb
+    have hmem : l.getD j [] ∈ l := by
+      rw [List.getD_eq_getElem?_getD, List.getElem?_eq_getElem hjl]; exact List.getElem_mem hjl
+    exact hnocr l hl _ hmem b hb
+  cases kCR K entries
+  · rfl
+  · simp only [if_true]; rw [this]
+
+/-- a CRLF file of k-line entries, seen as an LF dump: every line carries the CR -/
+def CRLines (entries : List (List Bytes)) : Prop := ∀ l ∈ entries, ∀ x ∈ l, x.getLast? = some 13
+
+theorem lineDelims_headD (k : Nat) (x : Bytes) (r : List Bytes) : (lineDelims k (x :: r)).headD 0 = k + x.length := by
+  cases r <;> rfl
+
+theorem kCR_of_CRLines (K : Nat) (hK : 0 < K) (entries : List (List Bytes)) (hne : entries ≠ [])
+    (h : CleanTable 10 K entries) (hcr : CRLines entries) : kCR K entries = true := by
+  cases entries with
+  | nil => exact absurd rfl hne
+  | cons l0 ls =>
+    have hl0 := (h l0 (by simp)).1
+    cases l0 with
+    | nil => simp at hl0; omega
+    | cons x0 r =>
+      have hx0 := hcr (x0 :: r) (by simp) x0 (by simp)
+      have hx0ne : x0 ≠ [] := by intro e; rw [e] at hx0; simp at hx0
+      have hpos : 0 < x0.length := List.length_pos_iff.mpr hx0ne
+      obtain ⟨k', hk'⟩ : ∃ k', K = k' + 1 := ⟨K - 1, by omega⟩
+      have hbyte : byteAt (dumpFile 10 ((x0 :: r) :: ls)) (x0.length - 1) = 13 := by
+        have hd : dumpFile 10 ((x0 :: r) :: ls) = x0 ++ ((dumpLine 10 (x0 :: r)).drop x0.length ++ dumpFile 10 ls) := by
+          have : dumpLine 10 (x0 :: r) = x0 ++ (dumpLine 10 (x0 :: r)).drop x0.length := by
+            cases r with
+            | nil => simp [dumpLine, intercalate]
+            | cons g r' => rw [dumpLine_cons_cons]; simp [List.append_assoc]
+          simp only [dumpFile, List.map_cons, List.flatten_cons]
+          conv => lhs; rw [this]
+          simp [List.append_assoc]
+        rw [hd, byteAt_append_left _ _ _ (by omega)]
+        rw [getLast?_eq_getElem_pred x0 hx0ne] at hx0
+        simpa using hx0
+      unfold kCR kGuard
+      simp only [lineGroups, List.head?_cons, Option.map_some, Option.getD_some, hk', List.take_succ_cons, List.any_cons,
+        lineDelims_headD, Nat.zero_add]
+      simp [hbyte, hx0ne]
+
+/-- **C04.kline_fields_crlf** — CRLF text: field j of every entry is the j-th source line without header bytes and without the CR -/
+theorem kline_fields_crlf (K : Nat) (hK : 0 < K) (offs : List Nat) (entries : List (List Bytes)) (hne : entries ≠ [])
+    (h : CleanTable 10 K entries) (hcr : CRLines entries) (j : Nat) (hj : j < K) (hjo : j < offs.length) :
+    (kExt K offs entries).fieldText j = entries.map (fun l => (dropCR (l.getD j [])).drop (offs.getD j 0)) := by
+  rw [kline_fields K hK offs entries h j hj hjo, kCR_of_CRLines K hK entries hne h hcr]
+  rfl
+
+/-! ### carried through programs: what the driver's evaluators return for the k-line formats -/
+
+/-- the j-th entry field of a source entry, as the code's construction delivers it -/
+def kSrcField (K : Nat) (offs : List Nat) (entries : List (List Bytes)) (j : Nat) (l : List Bytes) : Bytes :=
+  ((if kCR K entries then dropCR (l.getD j []) else l.getD j [])).drop (offs.getD j 0)
+
+theorem program_fields_src {α} (exts : List Ext) (hI : ∀ e ∈ exts, Inv e) (srcs : List (List α)) (f : α → Bytes) (j : Nat)
+    (hsrc : exts.map (fun e => e.fieldText j) = srcs.map (·.map f)) (p : Prog) :
+    (p.evalExt exts).map (fun e => e.fieldText j) = (p.evalSpec srcs).map (·.map f) := by
+  rw [program_fields exts hI p j]
+  have : (exts.map Ext.abs).map (·.map (·.field j)) = srcs.map (·.map f) := by
+    rw [← hsrc, List.map_map]
+    apply List.map_congr_left
+    intro e he
+    simp only [Function.comp]
+    exact (field_text e (hI e he).1 j).symm
+  rw [← evalSpec_map, this, evalSpec_map]
+
+
+theorem rows_src {α} (recs : List Rec) (t : List α) (hlen : recs.length = t.length) (fidx : List Nat) (f : Nat → α → Bytes)
+    (h : ∀ j ∈ fidx, recs.map (·.field j) = t.map (f j)) :
+    recs.map (Rec.entry fidx) = t.map (fun l => fidx.map (fun j => f j l)) := by
+  apply List.ext_getElem
+  · simp [hlen]
+  · intro i h1 h2
+    simp only [List.getElem_map, Rec.entry]
+    apply List.map_congr_left
+    intro j hj
+    have e1 := List.getElem_of_eq (h j hj) (by simpa using h1 : i < (recs.map (·.field j)).length)
+    simpa using e1
+
+theorem program_rows_src {α} (canCat : Bool) (fidx : List Nat) (exts : List Ext) (hI : ∀ e ∈ exts, Inv e)
+    (srcs : List (List α)) (F : α → List Bytes)
+    (hsrc : exts.map (fun e => e.abs.map (Rec.entry fidx)) = srcs.map (·.map F)) (p : Prog) :
+    (p.evalTab canCat fidx exts).map (Tab.rows fidx) = (p.evalSpec srcs).map (·.map F) := by
+  rw [(eager_fields canCat fidx exts hI p).2, ← evalSpec_map, List.map_map]
+  have : exts.map ((fun x => x.map (Rec.entry fidx)) ∘ Ext.abs) = srcs.map (·.map F) := hsrc
+  rw [this, evalSpec_map]
+
+/-- programs over the constructed k-line extractors, for any per-table description `f` of the field texts -/
+theorem kline_program_any (K : Nat) (hK : 0 < K) (offs : List Nat) (tables : List (List (List Bytes)))
+    (hne : ∀ t ∈ tables, t ≠ []) (h : ∀ t ∈ tables, CleanTable 10 K t) (ho : ∀ t ∈ tables, OffsOK offs t)
+    (f : Nat → List Bytes → Bytes)
+    (hf : ∀ t ∈ tables, ∀ j, j < K → (kExt K offs t).fieldText j = t.map (f j)) (p : Prog) :
+    (∀ j, j < K → (p.evalExt (tables.map (kExt K offs))).map (fun e => e.fieldText j) = (p.evalSpec tables).map (·.map (f j))) ∧
+    (∀ fidx : List Nat, (∀ j ∈ fidx, j < K) →
+      (p.evalTab false fidx (tables.map (kExt K offs))).map (Tab.rows fidx) =
+        (p.evalSpec tables).map (·.map (fun l => fidx.map (fun j => f j l)))) := by
+  have hspec : ∀ t ∈ tables, Inv (kExt K offs t) ∧ (kExt K offs t).abs.map (·.raw) = t.map (dumpLine 10) := by
+    intro t ht
+    obtain ⟨e, he, hi, hr⟩ := build_kline_records K hK offs t (hne t ht) (h t ht) (ho t ht)
+    rw [buildKLine_eq K hK offs t (hne t ht) (h t ht)] at he
+    simp only [Option.some.injEq] at he
+    subst he
+    exact ⟨hi, hr⟩
+  have hinv : ∀ e ∈ tables.map (kExt K offs), Inv e := by
+    intro e he
+    simp only [List.mem_map] at he
+    obtain ⟨t, ht, rfl⟩ := he
+    exact (hspec t ht).1
+  refine ⟨?_, ?_⟩
+  · intro j hj
+    apply program_fields_src _ hinv tables (f j) j
+    rw [List.map_map]
+    apply List.map_congr_left
+    intro t ht
+    exact hf t ht j hj
+  · intro fidx hfi
+    apply program_rows_src false fidx _ hinv tables (fun l => fidx.map (fun j => f j l))
+    rw [List.map_map]
+    apply List.map_congr_left
+    intro t ht
+    simp only [Function.comp]
+    have hlen : (kExt K offs t).abs.length = t.length := by
+      have := congrArg List.length (hspec t ht).2
+      simpa using this
+    apply rows_src _ t hlen fidx f
+    intro j hj
+    rw [← field_text _ (hspec t ht).1.1 j]
+    exact hf t ht j (hfi j hj)
+
+/-- **C04.passthrough_kline_fields** — end to end for FASTQ / two-line FASTA on plain LF files: after EVERY program, (1) on the
+pass-through extractor every entry field of the result is the corresponding line of the SELECTED SOURCE entries without its
+header bytes, and (2) the rows the driver's `evalTab` (eager fallback on `np.concatenate` included) yields are those same texts -/
+theorem passthrough_kline_fields (K : Nat) (hK : 0 < K) (offs : List Nat) (hoffs : offs.length = K)
+    (tables : List (List (List Bytes))) (hne : ∀ t ∈ tables, t ≠ []) (h : ∀ t ∈ tables, CleanTable 10 K t)
+    (ho : ∀ t ∈ tables, OffsOK offs t) (hnocr : ∀ t ∈ tables, NoCRTable t) (p : Prog) :
+    (∀ j, j < K → (p.evalExt (tables.map (kExt K offs))).map (fun e => e.fieldText j) =
+      (p.evalSpec tables).map (·.map (fun l => (l.getD j []).drop (offs.getD j 0)))) ∧
+    (∀ fidx : List Nat, (∀ j ∈ fidx, j < K) →
+      (p.evalTab false fidx (tables.map (kExt K offs))).map (Tab.rows fidx) =
+        (p.evalSpec tables).map (·.map (fun l => fidx.map (fun j => (l.getD j []).drop (offs.getD j 0))))) :=
+  kline_program_any K hK offs tables hne h ho (fun j l => (l.getD j []).drop (offs.getD j 0))
+    (fun t ht j hj => kline_fields_lf K hK offs t (h t ht) (hnocr t ht) j hj (by omega)) p
+
+/-- **C04.passthrough_kline_fields_crlf** — the same on CRLF files: the texts additionally lose their carriage return -/
+theorem passthrough_kline_fields_crlf (K : Nat) (hK : 0 < K) (offs : List Nat) (hoffs : offs.length = K)
+    (tables : List (List (List Bytes))) (hne : ∀ t ∈ tables, t ≠ []) (h : ∀ t ∈ tables, CleanTable 10 K t)
+    (ho : ∀ t ∈ tables, OffsOK offs t) (hcr : ∀ t ∈ tables, CRLines t) (p : Prog) :
+    (∀ j, j < K → (p.evalExt (tables.map (kExt K offs))).map (fun e => e.fieldText j) =
+      (p.evalSpec tables).map (·.map (fun l => (dropCR (l.getD j [])).drop (offs.getD j 0)))) ∧
+    (∀ fidx : List Nat, (∀ j ∈ fidx, j < K) →
+      (p.evalTab false fidx (tables.map (kExt K offs))).map (Tab.rows fidx) =
+        (p.evalSpec tables).map (·.map (fun l => fidx.map (fun j => (dropCR (l.getD j [])).drop (offs.getD j 0))))) :=
+  kline_program_any K hK offs tables hne h ho (fun j l => (dropCR (l.getD j [])).drop (offs.getD j 0))
+    (fun t ht j hj => kline_fields_crlf K hK offs t (hne t ht) (h t ht) (hcr t ht) j hj (by omega)) p
+
+/-- **C04.passthrough_kline_tab** — the bytes theorem for the evaluator the driver runs on FASTQ / FASTA: on every program
+without concatenation `evalTab` yields the pass-through extractor, whose bytes are the selected entries' source bytes -/
+theorem passthrough_kline_tab (K : Nat) (hK : 0 < K) (offs : List Nat) (fidx : List Nat)
+    (tables : List (List (List Bytes))) (hne : ∀ t ∈ tables, t ≠ []) (h : ∀ t ∈ tables, CleanTable 10 K t)
+    (ho : ∀ t ∈ tables, OffsOK offs t) (p : Prog) (hp : p.catFree = true) :
+    p.evalTab false fidx (tables.map (kExt K offs)) = (p.evalExt (tables.map (kExt K offs))).map Tab.lz ∧
+    (p.evalExt (tables.map (kExt K offs))).map Ext.bytes = (p.evalSpec (tables.map (·.map (dumpLine 10)))).map List.flatten :=
+  ⟨evalTab_lz false fidx _ p (Or.inr hp), (passthrough_kline K hK offs tables hne h ho p).2⟩
+
+/-! non-vacuity / meaning: the name of a FASTQ entry comes back without '@' -/
+example : (kExt 4 [1, 0, 0, 0] [["@r1 d".toList.map Char.toNat, "ACGT".toList.map Char.toNat, "+".toList.map Char.toNat, "IIII".toList.map Char.toNat]]).fieldText 0
+    = ["r1 d".toList.map Char.toNat] := by decide
+
+
+/-! ### SAM -/
+
+theorem zipWith_zipWith_left {α γ δ ε} (F : α → δ → ε) (h : α → γ → δ) :
+    ∀ (A : List α) (B : List γ), List.zipWith F A (List.zipWith h A B) = List.zipWith (fun a b => F a (h a b)) A B
+  | [], _ => by simp
+  | _ :: _, [] => by simp
+  | a :: as, b :: bs => by simp [zipWith_zipWith_left F h as bs]
+
+/-- the first 11 field starts of a SAM line are the starts of its first 11 columns -/
+theorem sam_starts (k : Nat) (l : List Bytes) (h11 : 11 ≤ l.length) :
+    (k :: (lineDelims k l).map (· + 1)).take 11 = (offsFrom k l).take 11 := by
+  have hne : l ≠ [] := by intro e; rw [e] at h11; simp at h11
+  have hD := lineDelims_ne_nil k l
+  have hsplit : lineDelims k l = (lineDelims k l).dropLast ++ [(lineDelims k l).getLast hD] :=
+    (List.dropLast_concat_getLast hD).symm
+  have : k :: (lineDelims k l).map (· + 1) = offsFrom k l ++ [(lineDelims k l).getLast hD + 1] := by
+    conv => lhs; rw [hsplit]
+    rw [List.map_append, ← List.cons_append, lineStarts_closed k l hne]
+    rfl
+  rw [this, List.take_append_of_le_length (by rw [offsFrom_length]; exact h11)]
+
+/-- the text `get_field_by_number(j)` (j < 11) reads from one SAM line, for both settings of the CR switch -/
+theorem sam_field_rows (j : Nat) (hj : j < 11) (strip : Bool) (lines : List (List Bytes))
+    (h : ∀ l ∈ lines, 11 ≤ l.length ∧ l.getLastD [] ≠ []) :
+    ∀ (Pfx tail : Bytes),
+      List.zipWith (fun s E =>
+          slice (Pfx ++ dumpFile 9 lines ++ tail) (s.getD j 0) ((List.zipWith (fun s e => e - s) s E).getD j 0))
+        (List.zipWith (fun ls g => (ls :: g.map (· + 1)).take 11) (lineOffsets 9 Pfx.length lines) (lineGroups 9 Pfx.length lines))
+        ((lineGroups 9 Pfx.length lines).map
+          (fun g => ((if strip then stripCR (Pfx ++ dumpFile 9 lines ++ tail) g else g)).take 11))
+      = lines.map (fun l => if (strip && j + 1 == l.length) then dropCR (l.getD j []) else l.getD j []) := by
+  induction lines with
+  | nil => intro Pfx tail; rfl
+  | cons l ls ih =>
+    intro Pfx tail
+    obtain ⟨h11, hlast⟩ := h l (by simp)
+    have hl : l ≠ [] := by intro e; rw [e] at h11; simp at h11
+    have hdata : Pfx ++ dumpFile 9 (l :: ls) ++ tail = Pfx ++ dumpLine 9 l ++ (dumpFile 9 ls ++ tail) := by
+      simp [dumpFile, List.append_assoc]
+    have hdata2 : Pfx ++ dumpFile 9 (l :: ls) ++ tail = (Pfx ++ dumpLine 9 l) ++ dumpFile 9 ls ++ tail := by
+      simp [dumpFile, List.append_assoc]
+    have h2 := ih (fun x hx => h x (by simp [hx])) (Pfx ++ dumpLine 9 l) tail
+    simp only [List.length_append] at h2
+    simp only [lineOffsets, lineGroups, List.zipWith_cons_cons, List.map_cons]
+    congr 1
+    · rw [sam_starts Pfx.length l h11]
+      have hjl : j < l.length := by omega
+      have hj1 : j < (offsFrom Pfx.length l).length := by rw [offsFrom_length]; exact hjl
+      have hDlen := lineDelims_length Pfx.length l hl
+      have hjD : j < (lineDelims Pfx.length l).length := by rw [hDlen]; exact hjl
+      have hs : ((offsFrom Pfx.length l).take 11).getD j 0 = (offsFrom Pfx.length l)[j] := by
+        simp [List.getD_eq_getElem?_getD, List.getElem?_take, hj, List.getElem?_eq_getElem hj1]
+      have hDj : (lineDelims Pfx.length l)[j] = (offsFrom Pfx.length l)[j] + (l[j]).length := by
+        have := lineDelims_closed Pfx.length l hl
+        simp [this]
+      obtain ⟨E, hE⟩ : ∃ E, E = (if strip then stripCR (Pfx ++ dumpFile 9 (l :: ls) ++ tail) (lineDelims Pfx.length l)
+          else lineDelims Pfx.length l) := ⟨_, rfl⟩
+      have hElen : E.length = l.length := by
+        rw [hE]; cases strip
+        · simpa using hDlen
+        · simp only [if_true]; rw [(stripCR_spec _ _).1, hDlen]
+      have hjE : j < E.length := by rw [hElen]; exact hjl
+      have hEj : E[j] = (offsFrom Pfx.length l)[j] +
+          (if (strip && j + 1 == l.length) then dropCR (l[j]) else l[j]).length := by
+        cases hst : strip with
+        | false =>
+          have : E = lineDelims Pfx.length l := by rw [hE, hst]; rfl
+          simp only [this, Bool.false_and, Bool.false_eq_true, if_false]
+          exact hDj
+        | true =>
+          have hE' : E = stripCR (Pfx ++ dumpFile 9 (l :: ls) ++ tail) (lineDelims Pfx.length l) := by rw [hE, hst]; rfl
+          obtain ⟨s1, s2, s3⟩ := stripCR_spec (Pfx ++ dumpFile 9 (l :: ls) ++ tail) (lineDelims Pfx.length l)
+          by_cases hjl1 : j + 1 = l.length
+          · have hcond : (true && j + 1 == l.length) = true := by simp [hjl1]
+            rw [hcond]; simp only [if_true]
+            have hsl := stripCR_last 9 Pfx (dumpFile 9 ls ++ tail) l hl hlast
+            rw [← hdata, ← hE'] at hsl
+            have e1 : E.getLastD 0 = E[j] := by
+              rw [getLastD_eq_getD_pred, hElen, List.getD_eq_getElem?_getD]
+              have : l.length - 1 = j := by omega
+              rw [this, List.getElem?_eq_getElem hjE]; rfl
+            have e2 : (offsFrom Pfx.length l).getLastD 0 = (offsFrom Pfx.length l)[j] := by
+              rw [getLastD_eq_getD_pred, offsFrom_length, List.getD_eq_getElem?_getD]
+              have : l.length - 1 = j := by omega
+              rw [this, List.getElem?_eq_getElem hj1]; rfl
+            have e3 : l.getLastD [] = l[j] := by
+              rw [getLastD_eq_getD_pred, List.getD_eq_getElem?_getD]
+              have : l.length - 1 = j := by omega
+              rw [this, List.getElem?_eq_getElem hjl]; rfl
+            rw [e1, e2, e3] at hsl
+            exact hsl
+          · have hcond : (true && j + 1 == l.length) = false := by simp [hjl1]
+            rw [hcond]; simp only [Bool.false_eq_true, if_false]
+            have := s3 j (by rw [hDlen]; omega)
+            rw [← hE'] at this
+            simp only [List.getD_eq_getElem?_getD, List.getElem?_eq_getElem hjE, List.getElem?_eq_getElem hjD, Option.getD_some] at this
+            rw [this]; exact hDj
+      have hLen : (List.zipWith (fun s e => e - s) ((offsFrom Pfx.length l).take 11) (E.take 11)).getD j 0
+          = (if (strip && j + 1 == l.length) then dropCR (l[j]) else l[j]).length := by
+        simp [List.getD_eq_getElem?_getD, List.getElem?_zipWith, List.getElem?_take, hj, List.getElem?_eq_getElem hj1,
+          List.getElem?_eq_getElem hjE, hEj]
+      rw [← hE, hs, hLen, hdata]
+      have hm : (if (strip && j + 1 == l.length) then dropCR (l[j]) else l[j]).length ≤ (l[j]).length := by
+        split
+        · exact dropCR_len_le _
+        · exact Nat.le_refl _
+      have := line_field_cut 9 Pfx (dumpFile 9 ls ++ tail) l j hjl 0 _ hm
+      simp only [Nat.add_zero, Nat.sub_zero, List.drop_zero] at this
+      rw [this]
+      simp only [List.getD_eq_getElem?_getD, List.getElem?_eq_getElem hjl, Option.getD_some]
+      split
+      · exact dropCR_prefix _
+      · exact List.take_length
+    · rw [hdata2]; exact h2
+
+/-- the carriage-return switch of `SAMBuffer._modify_for_carriage_return` on the dumped file -/
+def samCR (lines : List (List Bytes)) : Bool := crFlag (dumpFile 9 lines) (lineGroups 9 0 lines)
+
+theorem samExt_inv (lines : List (List Bytes)) (hne : lines ≠ []) (h : SamTable 11 lines) :
+    Inv (samExt lines) ∧ (samExt lines).abs.map (·.raw) = lines.map (dumpLine 9) := by
+  obtain ⟨e, he, hi, hr⟩ := build_sam_records lines hne h
+  rw [buildSam_eq lines hne h] at he
+  simp only [Option.some.injEq] at he
+  subst he
+  exact ⟨hi, hr⟩
+
+/-- **C04.sam_fields** — SOURCE-LEVEL field text for SAM: for EVERY body of lines with at least 11 clean columns (any
+number of optional tags, last column non-empty), each of the 11 mandatory fields of the constructed extractor is, line by line,
+exactly the source column — except that when the carriage-return switch is on and the line has no tags, the 11th field
+loses its trailing CR -/
+theorem sam_fields (lines : List (List Bytes)) (hne : lines ≠ []) (h : SamTable 11 lines)
+    (hlast : ∀ l ∈ lines, l.getLastD [] ≠ []) (j : Nat) (hj : j < 11) :
+    (samExt lines).fieldText j =
+      lines.map (fun l => if (samCR lines && j + 1 == l.length) then dropCR (l.getD j []) else l.getD j []) := by
+  have hwf := (samExt_inv lines hne h).1.1.1
+  rw [fieldText_zip _ hwf j]
+  have hGs : ((if crFlag (dumpFile 9 lines) (lineGroups 9 0 lines) then (lineGroups 9 0 lines).map (stripCR (dumpFile 9 lines))
+      else lineGroups 9 0 lines)).map (·.take 11) =
+      (lineGroups 9 0 lines).map (fun g => ((if samCR lines then stripCR (dumpFile 9 lines) g else g)).take 11) := by
+    unfold samCR
+    cases crFlag (dumpFile 9 lines) (lineGroups 9 0 lines) <;> simp [List.map_map, Function.comp]
+  unfold samExt samExtE
+  simp only
+  rw [zipWith_zipWith_left, hGs]
+  have := sam_field_rows j hj (samCR lines) lines (fun l hl => ⟨(h l hl).1, hlast l hl⟩) [] []
+  simp only [List.length_nil, List.nil_append, List.append_nil] at this
+  exact this
+
+/-- **C04.sam_fields_tags** — in particular: lines that carry at least one tag (or plain LF text) have all 11 fields exact -/
+theorem sam_fields_exact (lines : List (List Bytes)) (hne : lines ≠ []) (h : SamTable 11 lines)
+    (hlast : ∀ l ∈ lines, l.getLastD [] ≠ [])
+    (hok : ∀ l ∈ lines, 11 < l.length ∨ ∀ b ∈ l.getD 10 [], b ≠ 13) (j : Nat) (hj : j < 11) :
+    (samExt lines).fieldText j = lines.map (fun l => l.getD j []) := by
+  rw [sam_fields lines hne h hlast j hj]
+  apply List.map_congr_left
+  intro l hl
+  split
+  · rename_i hc
+    simp only [Bool.and_eq_true, beq_iff_eq] at hc
+    have h11 := (h l hl).1
+    have hj10 : j = 10 := by omega
+    rcases hok l hl with h1 | h1
+    · omega
+    · subst hj10; exact dropCR_noCR _ h1
+  · rfl
+
+
+/-! ### "rest of line" columns at source level (VCF genotype columns, SAM tags) -/
+
+/-- a dumped line, split in front of its j-th field -/
+theorem line_tail (sep : Nat) (l : List Bytes) :
+    ∀ (k j : Nat) (hj : j < l.length), ∃ A : Bytes,
+      dumpLine sep l = A ++ intercalate [sep] (l.drop j) ++ [10] ∧
+      A.length = (offsFrom k l)[j]'(by rw [offsFrom_length]; exact hj) - k := by
+  induction l with
+  | nil => intro k j hj; simp at hj
+  | cons f r ih =>
+    intro k j hj
+    cases j with
+    | zero => exact ⟨[], by simp [dumpLine], by simp [offsFrom]⟩
+    | succ j =>
+      cases r with
+      | nil => simp at hj
+      | cons g r' =>
+        have hj' : j < (g :: r').length := by simp at hj ⊢; omega
+        obtain ⟨A, hA, hlen⟩ := ih (k + f.length + 1) j hj'
+        have hge := offsFrom_ge (k + f.length + 1) (g :: r') _ (List.getElem_mem (by rw [offsFrom_length]; exact hj'))
+        refine ⟨f ++ [sep] ++ A, ?_, ?_⟩
+        · rw [dumpLine_cons_cons, hA]; simp [List.append_assoc]
+        · simp only [offsFrom, List.getElem_cons_succ, List.length_append, List.length_singleton, hlen]
+          simp only [offsFrom] at hge
+          omega
+
+theorem offsFrom_succ (l : List Bytes) :
+    ∀ (k j : Nat) (hj : j + 1 < l.length),
+      (offsFrom k l)[j + 1]'(by rw [offsFrom_length]; exact hj) =
+        (offsFrom k l)[j]'(by rw [offsFrom_length]; omega) + (l[j]'(by omega)).length + 1 := by
+  induction l with
+  | nil => intro k j hj; simp at hj
+  | cons f r ih =>
+    intro k j hj
+    cases r with
+    | nil => simp at hj
+    | cons g r' =>
+      cases j with
+      | zero => simp [offsFrom]
+      | succ j =>
+        have := ih (k + f.length + 1) j (by simp at hj ⊢; omega)
+        simpa [offsFrom] using this
+
+/-- the end of the last field of a dumped line, measured from the start of field j, is the length of the text from field j on -/
+theorem tail_len (sep : Nat) (l : List Bytes) (k j : Nat) (hj : j < l.length) :
+    (offsFrom k l)[l.length - 1]'(by rw [offsFrom_length]; omega) + (l[l.length - 1]'(by omega)).length =
+      (offsFrom k l)[j]'(by rw [offsFrom_length]; exact hj) + (intercalate [sep] (l.drop j)).length := by
+  have hlast : l.length - 1 < l.length := by omega
+  obtain ⟨A, hA, hAl⟩ := line_tail sep l k j hj
+  obtain ⟨B, hB, hBl⟩ := line_tail sep l k (l.length - 1) hlast
+  have hdrop : l.drop (l.length - 1) = [l[l.length - 1]] := by
+    rw [List.drop_eq_getElem_cons hlast]
+    have : l.length - 1 + 1 = l.length := by omega
+    rw [this, List.drop_length]
+  rw [hdrop] at hB
+  simp only [intercalate] at hB
+  have h1 := congrArg List.length hA
+  have h2 := congrArg List.length hB
+  simp only [List.length_append, List.length_singleton] at h1 h2
+  have g1 := offsFrom_ge k l _ (List.getElem_mem (by rw [offsFrom_length]; exact hj : j < (offsFrom k l).length))
+  have g2 := offsFrom_ge k l _ (List.getElem_mem (by rw [offsFrom_length]; exact hlast : l.length - 1 < (offsFrom k l).length))
+  omega
+
+/-- inside the whole file: the first `c` bytes of the text of a line from its j-th field on -/
+theorem line_rest_text (sep : Nat) (Pfx rest : Bytes) (l : List Bytes) (j : Nat) (hj : j < l.length) (c : Nat) :
+    slice (Pfx ++ dumpLine sep l ++ rest) ((offsFrom Pfx.length l)[j]'(by rw [offsFrom_length]; exact hj)) c
+      = (intercalate [sep] (l.drop j) ++ [10] ++ rest).take c := by
+  obtain ⟨A, hA, hAl⟩ := line_tail sep l Pfx.length j hj
+  have hge := offsFrom_ge Pfx.length l _ (List.getElem_mem (by rw [offsFrom_length]; exact hj : j < (offsFrom Pfx.length l).length))
+  have hd : Pfx ++ dumpLine sep l ++ rest = (Pfx ++ A) ++ (intercalate [sep] (l.drop j) ++ [10] ++ rest) := by
+    rw [hA]; simp [List.append_assoc]
+  have hlen : (Pfx ++ A).length = (offsFrom Pfx.length l)[j]'(by rw [offsFrom_length]; exact hj) := by
+    simp only [List.length_append, hAl]; omega
+  rw [hd, ← hlen]
+  have := slice_append_right (Pfx ++ A) (intercalate [sep] (l.drop j) ++ [10] ++ rest) 0 c
+  rw [Nat.add_zero] at this
+  rw [this]
+  unfold slice; simp
+
+theorem intercalate_getLast? (sep : Nat) (fs : List Bytes) (hne : fs ≠ []) (hl : fs.getLast hne ≠ []) :
+    (intercalate [sep] fs).getLast? = (fs.getLast hne).getLast? := by
+  induction fs with
+  | nil => exact absurd rfl hne
+  | cons f r ih =>
+    cases r with
+    | nil => rfl
+    | cons g r' =>
+      have hne' : (g :: r') ≠ [] := by simp
+      have hl' : (g :: r').getLast hne' ≠ [] := by simpa [List.getLast_cons hne'] using hl
+      have hi := ih hne' hl'
+      obtain ⟨v, hv⟩ : ∃ v, ((g :: r').getLast hne').getLast? = some v := by
+        cases hx : (g :: r').getLast hne' with
+        | nil => exact absurd hx hl'
+        | cons a b => exact ⟨_, List.getLast?_eq_some_getLast (by simp)⟩
+      simp only [intercalate]
+      rw [List.getLast?_append, hi, List.getLast_cons hne', hv]
+      rfl
+
+/-- dropping the CR of the last field of a tail = dropping the CR of the tail's text -/
+theorem dropCR_tail (sep : Nat) (fs : List Bytes) (hne : fs ≠ []) (hl : fs.getLast hne ≠ []) :
+    (intercalate [sep] fs).take ((intercalate [sep] fs).length - ((fs.getLast hne).length - (dropCR (fs.getLast hne)).length))
+      = dropCR (intercalate [sep] fs) := by
+  have hg := intercalate_getLast? sep fs hne hl
+  unfold dropCR
+  rw [hg]
+  by_cases h13 : (fs.getLast hne).getLast? = some 13
+  · simp only [h13, if_true, List.length_dropLast]
+    have hpos : 0 < (fs.getLast hne).length := List.length_pos_iff.mpr hl
+    have : (fs.getLast hne).length - ((fs.getLast hne).length - 1) = 1 := by omega
+    rw [this, List.dropLast_eq_take]
+  · simp only [h13, if_false, Nat.sub_self, Nat.sub_zero, List.take_length]
+
+
+theorem dropCR_tail' (sep : Nat) (fs : List Bytes) (x : Bytes) (hx : fs.getLast? = some x) (hxne : x ≠ []) :
+    (intercalate [sep] fs).take ((intercalate [sep] fs).length - (x.length - (dropCR x).length)) = dropCR (intercalate [sep] fs) := by
+  have hne : fs ≠ [] := by intro e; rw [e] at hx; simp at hx
+  have hxe : fs.getLast hne = x := by
+    rw [List.getLast?_eq_some_getLast hne] at hx; exact Option.some.inj hx
+  have := dropCR_tail sep fs hne (by rw [hxe]; exact hxne)
+  rw [hxe] at this
+  exact this
+
+/-- the text of one dumped line from its j-th field up to `m` bytes into its last field -/
+theorem line_rest_cut (sep : Nat) (Pfx rest : Bytes) (l : List Bytes) (j : Nat) (hj : j < l.length) (oj oL : Nat) (xL : Bytes)
+    (hoj : (offsFrom Pfx.length l)[j]? = some oj) (hoL : (offsFrom Pfx.length l)[l.length - 1]? = some oL)
+    (hxL : l[l.length - 1]? = some xL) (m : Nat) (hm : m ≤ xL.length) :
+    slice (Pfx ++ dumpLine sep l ++ rest) oj (oL + m - oj)
+      = (intercalate [sep] (l.drop j)).take ((intercalate [sep] (l.drop j)).length - (xL.length - m)) := by
+  have hL : l.length - 1 < l.length := by omega
+  have hjo : j < (offsFrom Pfx.length l).length := by rw [offsFrom_length]; exact hj
+  have hLo : l.length - 1 < (offsFrom Pfx.length l).length := by rw [offsFrom_length]; exact hL
+  have htl := tail_len sep l Pfx.length j hj
+  have hrt := line_rest_text sep Pfx rest l j hj
+  rw [List.getElem?_eq_getElem hjo] at hoj
+  rw [List.getElem?_eq_getElem hLo] at hoL
+  rw [List.getElem?_eq_getElem hL] at hxL
+  simp only [Option.some.injEq] at hoj hoL hxL
+  rw [hoj] at htl hrt
+  rw [hoL, hxL] at htl
+  rw [hrt]
+  have hc : oL + m - oj = (intercalate [sep] (l.drop j)).length - (xL.length - m) := by omega
+  rw [hc, List.append_assoc, List.take_append_of_le_length (by omega)]
+
+/-- the rows of a delimited extractor: "rest of line from field j" under both settings of the CR switch -/
+theorem rest_rows (sep n j : Nat) (hj : j < n) (strip : Bool) (lines : List (List Bytes))
+    (h : ∀ l ∈ lines, l.length = n ∧ l.getLastD [] ≠ []) :
+    ∀ (Pfx tail : Bytes),
+      (expRowsE sep Pfx.length lines ((lineGroups sep Pfx.length lines).map
+          (fun g => if strip then stripCR (Pfx ++ dumpFile sep lines ++ tail) g else g))).map
+        (fun r => slice (Pfx ++ dumpFile sep lines ++ tail) (r.fS.getD j 0) (r.fS.getLastD 0 + r.fL.getLastD 0 - r.fS.getD j 0))
+      = lines.map (fun l => if strip then dropCR (intercalate [sep] (l.drop j)) else intercalate [sep] (l.drop j)) := by
+  induction lines with
+  | nil => intro Pfx tail; simp [expRowsE]
+  | cons l ls ih =>
+    intro Pfx tail
+    obtain ⟨hln, hlast⟩ := h l (by simp)
+    have hne : l ≠ [] := by intro e; rw [e] at hln; simp at hln; omega
+    have hdata : Pfx ++ dumpFile sep (l :: ls) ++ tail = Pfx ++ dumpLine sep l ++ (dumpFile sep ls ++ tail) := by
+      simp [dumpFile, List.append_assoc]
+    have hdata2 : Pfx ++ dumpFile sep (l :: ls) ++ tail = (Pfx ++ dumpLine sep l) ++ dumpFile sep ls ++ tail := by
+      simp [dumpFile, List.append_assoc]
+    simp only [lineGroups, List.map_cons, expRowsE]
+    congr 1
+    · have hjl : j < l.length := by omega
+      have hL : l.length - 1 < l.length := by omega
+      have hoff : (offsFrom Pfx.length l).length = l.length := offsFrom_length _ _
+      have hjo : j < (offsFrom Pfx.length l).length := by rw [hoff]; exact hjl
+      have hLo : l.length - 1 < (offsFrom Pfx.length l).length := by rw [hoff]; exact hL
+      have hDlen := lineDelims_length Pfx.length l hne
+      have hgl : (l.drop j).getLast? = some (l[l.length - 1]) := by
+        rw [List.getLast?_drop, if_neg (by omega), List.getLast?_eq_getElem?, List.getElem?_eq_getElem hL]
+      have hllb := line_last_byte sep Pfx (dumpFile sep ls ++ tail) l hne hlast
+      have hsl := stripCR_last sep Pfx (dumpFile sep ls ++ tail) l hne hlast
+      have hlL0 : l.getLastD [] = l[l.length - 1] := by
+        rw [getLastD_eq_getD_pred, List.getD_eq_getElem?_getD, List.getElem?_eq_getElem hL]; rfl
+      have hoL0 : (offsFrom Pfx.length l).getLastD 0 = (offsFrom Pfx.length l)[l.length - 1] := by
+        have : (offsFrom Pfx.length l).getLastD 0 = (offsFrom Pfx.length l).getD (l.length - 1) 0 := by
+          rw [getLastD_eq_getD_pred, hoff]
+        rw [this, List.getD_eq_getElem?_getD, List.getElem?_eq_getElem hLo]; rfl
+      have hfSj0 : (offsFrom Pfx.length l).getD j 0 = (offsFrom Pfx.length l)[j] := by
+        rw [List.getD_eq_getElem?_getD, List.getElem?_eq_getElem hjo]; rfl
+      have hcut0 := line_rest_cut sep Pfx (dumpFile sep ls ++ tail) l j hjl _ _ _
+        (List.getElem?_eq_getElem hjo) (List.getElem?_eq_getElem hLo) (List.getElem?_eq_getElem hL)
+      obtain ⟨xL, hxL⟩ : ∃ x, x = l[l.length - 1] := ⟨_, rfl⟩
+      obtain ⟨oL, hoLd⟩ : ∃ o, o = (offsFrom Pfx.length l)[l.length - 1] := ⟨_, rfl⟩
+      obtain ⟨oj, hojd⟩ : ∃ o, o = (offsFrom Pfx.length l)[j] := ⟨_, rfl⟩
+      rw [← hxL, ← hoLd, ← hojd] at hcut0
+      rw [← hxL] at hgl hlL0
+      rw [← hoLd] at hoL0
+      rw [← hojd] at hfSj0
+      rw [hlL0, hoL0] at hllb hsl
+      rw [hlL0] at hlast
+      rw [← hdata] at hsl
+      obtain ⟨E, hE⟩ : ∃ E, E = (if strip then stripCR (Pfx ++ dumpFile sep (l :: ls) ++ tail) (lineDelims Pfx.length l)
+          else lineDelims Pfx.length l) := ⟨_, rfl⟩
+      rw [← hE]
+      have hElen : E.length = l.length := by
+        rw [hE]; cases strip
+        · simpa using hDlen
+        · simp only [if_true]; rw [(stripCR_spec _ _).1, hDlen]
+      -- the end the switch leaves for the last field
+      have hElast : E.getLastD 0 = oL + (if strip then dropCR xL else xL).length := by
+        cases hst : strip with
+        | false =>
+          have : E = lineDelims Pfx.length l := by rw [hE, hst]; rfl
+          rw [this]
+          simpa using hllb.1
+        | true =>
+          have hE' : E = stripCR (Pfx ++ dumpFile sep (l :: ls) ++ tail) (lineDelims Pfx.length l) := by rw [hE, hst]; rfl
+          rw [hE']
+          simpa using hsl
+      have hfLlast : (List.zipWith (fun s e => e - s) (offsFrom Pfx.length l) E).getLastD 0 = E.getLastD 0 - oL := by
+        have h1 : (List.zipWith (fun s e => e - s) (offsFrom Pfx.length l) E).getLastD 0 =
+            (List.zipWith (fun s e => e - s) (offsFrom Pfx.length l) E).getD (l.length - 1) 0 := by
+          rw [getLastD_eq_getD_pred]; simp only [List.length_zipWith, hoff, hElen, Nat.min_self]
+        have h2 : E.getLastD 0 = E.getD (l.length - 1) 0 := by rw [getLastD_eq_getD_pred, hElen]
+        have hLE : l.length - 1 < E.length := by rw [hElen]; exact hL
+        rw [h1, h2, hoLd]
+        simp [List.getD_eq_getElem?_getD, List.getElem?_zipWith, List.getElem?_eq_getElem hLo, List.getElem?_eq_getElem hLE]
+      rw [hfSj0, hoL0, hfLlast, hElast, hdata]
+      have hm : (if strip then dropCR xL else xL).length ≤ xL.length := by
+        split
+        · exact dropCR_len_le _
+        · exact Nat.le_refl _
+      have hcut := hcut0 _ hm
+      have e0 : oL + (oL + (if strip then dropCR xL else xL).length - oL) - oj
+          = oL + (if strip then dropCR xL else xL).length - oj := by omega
+      rw [e0, hcut]
+      cases strip with
+      | false => simp
+      | true =>
+        simp only [if_true]
+        exact dropCR_tail' sep (l.drop j) _ hgl hlast
+    · have := ih (fun x hx => h x (by simp [hx])) (Pfx ++ dumpLine sep l) tail
+      simp only [List.length_append] at this
+      rw [hdata2]
+      exact this
+
+/-- the CR switch of the delimited construction on the dumped file -/
+def delimCR (sep : Nat) (lines : List (List Bytes)) : Bool := crFlag (dumpFile sep lines) (lineGroups sep 0 lines)
+
+/-- **C04.delimited_rest** — SOURCE-LEVEL "rest of line" (`get_fields_by_range(from_nr=j)`, the VCF genotype columns): for EVERY
+table of n clean fields per line with non-empty last fields, it is, line by line, the source text from column j to the end of the
+line (columns joined by the separator) — without the trailing CR when the carriage-return switch is on -/
+theorem delimited_rest (sep n : Nat) (hn : 0 < n) (lines : List (List Bytes)) (h : CleanTable sep n lines)
+    (hlast : ∀ l ∈ lines, l.getLastD [] ≠ []) (j : Nat) (hj : j < n) :
+    (expExtG sep lines).rest j =
+      lines.map (fun l => if delimCR sep lines then dropCR (intercalate [sep] (l.drop j)) else intercalate [sep] (l.drop j)) := by
+  have hlne : ∀ l ∈ lines, l ≠ [] := by
+    intro l hl e; have := (h l hl).1; rw [e] at this; simp at this; omega
+  have hEs : endsOf (dumpFile sep lines) (lineGroups sep 0 lines) =
+      (lineGroups sep 0 lines).map (fun g => if delimCR sep lines then stripCR (dumpFile sep lines) g else g) := by
+    unfold endsOf delimCR
+    cases crFlag (dumpFile sep lines) (lineGroups sep 0 lines) <;> simp
+  have hrows : (expExtG sep lines).rows = expRowsE sep 0 lines
+      ((lineGroups sep 0 lines).map (fun g => if delimCR sep lines then stripCR (dumpFile sep lines) g else g)) := by
+    unfold expExtG; rw [hEs]
+    exact rows_expE sep lines hlne _ 0 _ true (by simp [lineGroups_length])
+  have := rest_rows sep n j hj (delimCR sep lines) lines (fun l hl => ⟨(h l hl).1, hlast l hl⟩) [] []
+  simp only [List.length_nil, List.nil_append, List.append_nil] at this
+  unfold Ext.rest
+  rw [hrows]
+  exact this
+
+
+/-- what `_get_extra_field` computes on one row -/
+def extraOf (d : Bytes) (r : Row) : Bytes :=
+  let st := r.fS.getLastD 0 + r.fL.getLastD 0 + 1
+  let lineEnd := r.eE - 1 - (if byteAt d (r.eE - 2) == 13 then 1 else 0)
+  slice d st (lineEnd - st)
+
+theorem samExtra_eq (e : Ext) : e.samExtra = e.rows.map (extraOf e.data) := rfl
+
+theorem slice_zero_len {α} (d : List α) (s : Nat) : slice d s 0 = [] := by simp [slice]
+
+/-- one SAM line inside the file: the tags text under both settings of the CR switch -/
+theorem sam_extra_row (Pfx rest : Bytes) (l : List Bytes) (h11 : 11 ≤ l.length) (hlast : l.getLastD [] ≠ []) (strip : Bool) :
+    extraOf (Pfx ++ dumpLine 9 l ++ rest)
+      ⟨(Pfx.length :: (lineDelims Pfx.length l).map (· + 1)).take 11,
+       List.zipWith (fun s e => e - s) ((Pfx.length :: (lineDelims Pfx.length l).map (· + 1)).take 11)
+         ((if strip then stripCR (Pfx ++ dumpLine 9 l ++ rest) (lineDelims Pfx.length l) else lineDelims Pfx.length l).take 11),
+       Pfx.length, (lineDelims Pfx.length l).getLastD 0 + 1⟩
+      = dropCR (intercalate [9] (l.drop 11)) := by
+  have hne : l ≠ [] := by intro e; rw [e] at h11; simp at h11
+  have hL : l.length - 1 < l.length := by omega
+  have h10 : 10 < l.length := by omega
+  have hoff : (offsFrom Pfx.length l).length = l.length := offsFrom_length _ _
+  have hLo : l.length - 1 < (offsFrom Pfx.length l).length := by rw [hoff]; exact hL
+  have h10o : 10 < (offsFrom Pfx.length l).length := by rw [hoff]; exact h10
+  have hDlen := lineDelims_length Pfx.length l hne
+  have h10D : 10 < (lineDelims Pfx.length l).length := by rw [hDlen]; exact h10
+  have hllb := line_last_byte 9 Pfx rest l hne hlast
+  have hsl := stripCR_last 9 Pfx rest l hne hlast
+  have hlL0 : l.getLastD [] = l[l.length - 1] := by
+    rw [getLastD_eq_getD_pred, List.getD_eq_getElem?_getD, List.getElem?_eq_getElem hL]; rfl
+  have hoL0 : (offsFrom Pfx.length l).getLastD 0 = (offsFrom Pfx.length l)[l.length - 1] := by
+    have : (offsFrom Pfx.length l).getLastD 0 = (offsFrom Pfx.length l).getD (l.length - 1) 0 := by
+      rw [getLastD_eq_getD_pred, hoff]
+    rw [this, List.getD_eq_getElem?_getD, List.getElem?_eq_getElem hLo]; rfl
+  have hD10 : (lineDelims Pfx.length l)[10] = (offsFrom Pfx.length l)[10] + (l[10]).length := by
+    have := lineDelims_closed Pfx.length l hne
+    simp [this]
+  obtain ⟨E, hE⟩ : ∃ E, E = (if strip then stripCR (Pfx ++ dumpLine 9 l ++ rest) (lineDelims Pfx.length l)
+      else lineDelims Pfx.length l) := ⟨_, rfl⟩
+  rw [← hE]
+  have hElen : E.length = l.length := by
+    rw [hE]; cases strip
+    · simpa using hDlen
+    · simp only [if_true]; rw [(stripCR_spec _ _).1, hDlen]
+  have h10E : 10 < E.length := by rw [hElen]; exact h10
+  rw [sam_starts Pfx.length l h11]
+  -- last entries of the two 11-long tables
+  have hfS : ((offsFrom Pfx.length l).take 11).getLastD 0 = (offsFrom Pfx.length l)[10] := by
+    rw [getLastD_eq_getD_pred]
+    have : ((offsFrom Pfx.length l).take 11).length = 11 := by rw [List.length_take, hoff]; omega
+    rw [this]
+    simp [List.getD_eq_getElem?_getD, List.getElem?_take, List.getElem?_eq_getElem h10o]
+  have hfL : (List.zipWith (fun s e => e - s) ((offsFrom Pfx.length l).take 11) (E.take 11)).getLastD 0 =
+      E[10] - (offsFrom Pfx.length l)[10] := by
+    rw [getLastD_eq_getD_pred]
+    have : (List.zipWith (fun s e => e - s) ((offsFrom Pfx.length l).take 11) (E.take 11)).length = 11 := by
+      simp only [List.length_zipWith, List.length_take, hoff, hElen]; omega
+    rw [this]
+    simp [List.getD_eq_getElem?_getD, List.getElem?_zipWith, List.getElem?_take, List.getElem?_eq_getElem h10o,
+      List.getElem?_eq_getElem h10E]
+  unfold extraOf
+  simp only
+  rw [hfS, hfL]
+  -- the line end
+  obtain ⟨xL, hxL⟩ : ∃ x, x = l[l.length - 1] := ⟨_, rfl⟩
+  obtain ⟨oL, hoLd⟩ : ∃ o, o = (offsFrom Pfx.length l)[l.length - 1] := ⟨_, rfl⟩
+  rw [← hxL] at hlL0
+  rw [← hoLd] at hoL0
+  rw [hlL0, hoL0] at hllb hsl
+  rw [hlL0] at hlast
+  obtain ⟨g1, g2, g3⟩ := hllb
+  have hpos : 0 < xL.length := g2
+  have hend : (lineDelims Pfx.length l).getLastD 0 + 1 - 1 -
+      (if byteAt (Pfx ++ dumpLine 9 l ++ rest) ((lineDelims Pfx.length l).getLastD 0 + 1 - 2) == 13 then 1 else 0)
+      = oL + (dropCR xL).length := by
+    have e2 : (lineDelims Pfx.length l).getLastD 0 + 1 - 2 = (lineDelims Pfx.length l).getLastD 0 - 1 := by omega
+    have hb : xL.getLast? = some (byteAt (Pfx ++ dumpLine 9 l ++ rest) ((lineDelims Pfx.length l).getLastD 0 - 1)) := g3.symm
+    rw [e2, g1]
+    rw [g1] at hb
+    generalize byteAt (Pfx ++ dumpLine 9 l ++ rest) (oL + xL.length - 1) = b at hb
+    unfold dropCR
+    rw [hb]
+    by_cases h13 : b = 13
+    · subst h13; simp; omega
+    · have : (b == 13) = false := by simp [h13]
+      simp [this, h13]
+  rw [hend]
+  by_cases hl11 : l.length = 11
+  · -- no tags: nothing between the 11th field and the line end
+    have hidx : l.length - 1 = 10 := by omega
+    have hE10 : (offsFrom Pfx.length l)[10] + (dropCR xL).length ≤ E[10] ∧ oL = (offsFrom Pfx.length l)[10] := by
+      have hoL10 : oL = (offsFrom Pfx.length l)[10] := by rw [hoLd]; simp [hidx]
+      have hx10 : xL = l[10] := by rw [hxL]; simp [hidx]
+      refine ⟨?_, hoL10⟩
+      cases hst : strip with
+      | false =>
+        have : E = lineDelims Pfx.length l := by rw [hE, hst]; rfl
+        simp only [this, hD10, ← hx10]
+        have := dropCR_len_le xL; omega
+      | true =>
+        have hE' : E = stripCR (Pfx ++ dumpLine 9 l ++ rest) (lineDelims Pfx.length l) := by rw [hE, hst]; rfl
+        rw [← hE'] at hsl
+        have : E.getLastD 0 = E[10] := by
+          have h2 : E.getLastD 0 = E.getD (l.length - 1) 0 := by rw [getLastD_eq_getD_pred, hElen]
+          rw [h2, hidx, List.getD_eq_getElem?_getD, List.getElem?_eq_getElem h10E]; rfl
+        rw [this, hoL10] at hsl
+        omega
+    have hz : oL + (dropCR xL).length - ((offsFrom Pfx.length l)[10] + (E[10] - (offsFrom Pfx.length l)[10]) + 1) = 0 := by
+      obtain ⟨a, b⟩ := hE10; omega
+    rw [hz, slice_zero_len]
+    have : l.drop 11 = [] := by rw [← hl11]; exact List.drop_length
+    rw [this]; rfl
+  · -- tags: from the start of column 12 to the CR-less line end
+    have h11' : 11 < l.length := by omega
+    have h11o : 11 < (offsFrom Pfx.length l).length := by rw [hoff]; exact h11'
+    have hE10 : E[10] = (offsFrom Pfx.length l)[10] + (l[10]).length := by
+      cases hst : strip with
+      | false =>
+        have : E = lineDelims Pfx.length l := by rw [hE, hst]; rfl
+        simp only [this, hD10]
+      | true =>
+        have hE' : E = stripCR (Pfx ++ dumpLine 9 l ++ rest) (lineDelims Pfx.length l) := by rw [hE, hst]; rfl
+        have := (stripCR_spec (Pfx ++ dumpLine 9 l ++ rest) (lineDelims Pfx.length l)).2.2 10 (by rw [hDlen]; omega)
+        rw [← hE'] at this
+        simp only [List.getD_eq_getElem?_getD, List.getElem?_eq_getElem h10E, List.getElem?_eq_getElem h10D, Option.getD_some] at this
+        rw [this, hD10]
+    have hsucc := offsFrom_succ l Pfx.length 10 h11'
+    have hst : (offsFrom Pfx.length l)[10] + (E[10] - (offsFrom Pfx.length l)[10]) + 1 = (offsFrom Pfx.length l)[11] := by
+      rw [hE10, hsucc]; omega
+    rw [hst]
+    have hcut := line_rest_cut 9 Pfx rest l 11 h11' _ oL xL (List.getElem?_eq_getElem h11o)
+      (by rw [List.getElem?_eq_getElem hLo, hoLd]) (by rw [List.getElem?_eq_getElem hL, hxL]) (dropCR xL).length (dropCR_len_le xL)
+    rw [hcut]
+    have hgl : (l.drop 11).getLast? = some xL := by
+      rw [List.getLast?_drop, if_neg (by omega), List.getLast?_eq_getElem?, List.getElem?_eq_getElem hL, hxL]
+    exact dropCR_tail' 9 (l.drop 11) xL hgl hlast
+
+
+theorem sam_extra_rows (strip : Bool) (lines : List (List Bytes)) (h : ∀ l ∈ lines, 11 ≤ l.length ∧ l.getLastD [] ≠ []) :
+    ∀ (Pfx tail data : Bytes) (c : Bool),
+      (Ext.mk data
+        (List.zipWith (fun ls g => (ls :: g.map (· + 1)).take 11) (lineOffsets 9 Pfx.length lines) (lineGroups 9 Pfx.length lines))
+        (List.zipWith (fun ss es => List.zipWith (fun s e => e - s) ss es)
+          (List.zipWith (fun ls g => (ls :: g.map (· + 1)).take 11) (lineOffsets 9 Pfx.length lines) (lineGroups 9 Pfx.length lines))
+          (((lineGroups 9 Pfx.length lines).map
+            (fun g => if strip then stripCR (Pfx ++ dumpFile 9 lines ++ tail) g else g)).map (·.take 11)))
+        (lineOffsets 9 Pfx.length lines) ((lineGroups 9 Pfx.length lines).map (fun g => g.getLastD 0 + 1)) c).rows.map
+          (extraOf (Pfx ++ dumpFile 9 lines ++ tail))
+      = lines.map (fun l => dropCR (intercalate [9] (l.drop 11))) := by
+  induction lines with
+  | nil => intro Pfx tail data c; simp [Ext.rows, lineOffsets, lineGroups]
+  | cons l ls ih =>
+    intro Pfx tail data c
+    obtain ⟨h11, hlast⟩ := h l (by simp)
+    have hdata : Pfx ++ dumpFile 9 (l :: ls) ++ tail = Pfx ++ dumpLine 9 l ++ (dumpFile 9 ls ++ tail) := by
+      simp [dumpFile, List.append_assoc]
+    have hdata2 : Pfx ++ dumpFile 9 (l :: ls) ++ tail = (Pfx ++ dumpLine 9 l) ++ dumpFile 9 ls ++ tail := by
+      simp [dumpFile, List.append_assoc]
+    have ih' := ih (fun x hx => h x (by simp [hx])) (Pfx ++ dumpLine 9 l) tail data c
+    simp only [List.length_append] at ih'
+    unfold Ext.rows at ih' ⊢
+    simp only at ih' ⊢
+    simp only [lineOffsets, lineGroups, List.zipWith_cons_cons, List.map_cons, List.zip_cons_cons]
+    congr 1
+    · rw [hdata]
+      exact sam_extra_row Pfx (dumpFile 9 ls ++ tail) l h11 hlast strip
+    · rw [hdata2]; exact ih'
+
+/-- **C04.sam_extra_src** — SOURCE-LEVEL SAM tags: for EVERY body of lines with at least 11 clean columns (last column non-empty),
+`_get_extra_field` returns, line by line, the source text of the columns after the 11th, joined by tabs, without the line's
+trailing CR (LF, CRLF or mixed; empty when the line has no tags) -/
+theorem sam_extra_src (lines : List (List Bytes)) (hne : lines ≠ []) (h : SamTable 11 lines)
+    (hlast : ∀ l ∈ lines, l.getLastD [] ≠ []) :
+    (samExt lines).samExtra = lines.map (fun l => dropCR (intercalate [9] (l.drop 11))) := by
+  have hGs : ((if crFlag (dumpFile 9 lines) (lineGroups 9 0 lines) then (lineGroups 9 0 lines).map (stripCR (dumpFile 9 lines))
+      else lineGroups 9 0 lines)) =
+      (lineGroups 9 0 lines).map (fun g => if samCR lines then stripCR (dumpFile 9 lines) g else g) := by
+    unfold samCR
+    cases crFlag (dumpFile 9 lines) (lineGroups 9 0 lines) <;> simp
+  rw [samExtra_eq]
+  unfold samExt samExtE
+  rw [hGs]
+  have := sam_extra_rows (samCR lines) lines (fun l hl => ⟨(h l hl).1, hlast l hl⟩) [] [] (dumpFile 9 lines) true
+  simp only [List.length_nil, List.nil_append, List.append_nil] at this
+  exact this
+
+/-! meaning: on a CRLF line the tags come back without the CR, on a line without tags they are empty -/
+example : (samExt [["r1", "0", "c", "007", "60", "4M", "*", "0", "0", "ACGT", "IIII", "NM:i:0", "XS:A:+\r"].map (·.toList.map Char.toNat),
+    ["r2", "0", "c", "7", "60", "4M", "*", "0", "0", "ACGT", "IIII\r"].map (·.toList.map Char.toNat)]).samExtra
+    = ["NM:i:0\tXS:A:+".toList.map Char.toNat, []] := by decide
+
+
+/-! ### delimited formats: the last column on ANY file (LF, CRLF, mixed) -/
+
+/-- **C04.delimited_last_column** — for EVERY table of n clean fields per line with non-empty last fields (LF, CRLF or MIXED
+line ends): the last column is returned exactly when the carriage-return switch is off, and without the trailing CR of each
+line that has one when it is on (`crlf_last_column` is the all-CRLF case; `build_delimited_records` gives the other columns) -/
+theorem delimited_last_column (sep n : Nat) (hn : 0 < n) (lines : List (List Bytes))
+    (h : CleanTable sep n lines) (hlast : ∀ l ∈ lines, l.getLastD [] ≠ []) :
+    (expExtG sep lines).fieldText (n - 1) =
+      lines.map (fun l => if delimCR sep lines then dropCR (l.getD (n - 1) []) else l.getD (n - 1) []) := by
+  have hlne : ∀ l ∈ lines, l ≠ [] := by
+    intro l hl e; have := (h l hl).1; rw [e] at this; simp at this; omega
+  cases hflag : delimCR sep lines with
+  | true =>
+    have hflag' : crFlag (dumpFile sep lines) (lineGroups sep 0 lines) = true := hflag
+    have hEs : endsOf (dumpFile sep lines) (lineGroups sep 0 lines) = (lineGroups sep 0 lines).map (stripCR (dumpFile sep lines)) := by
+      unfold endsOf; simp [hflag']
+    have hrows : (expExtG sep lines).rows = expRowsE sep 0 lines ((lineGroups sep 0 lines).map (stripCR (dumpFile sep lines))) := by
+      unfold expExtG; rw [hEs]
+      exact rows_expE sep lines hlne _ 0 _ true (by simp [lineGroups_length])
+    have := last_column_rows sep n hn lines (fun l hl => ⟨(h l hl).1, hlast l hl⟩) [] []
+    simp only [List.length_nil, List.nil_append, List.append_nil] at this
+    unfold Ext.fieldText
+    rw [hrows]
+    exact this
+  | false =>
+    have hflag' : crFlag (dumpFile sep lines) (lineGroups sep 0 lines) = false := hflag
+    have heq : expExtG sep lines = expExt sep lines := by
+      unfold expExtG expExt endsOf; simp [hflag']
+    obtain ⟨_, _, c⟩ := expExtE_spec sep n hn (fun _ _ => true) lines h _ (EsOK_groups sep _ lines hlne 0)
+    rw [heq]
+    have := c (n - 1) (by omega) rfl
+    unfold expExt
+    simpa using this
+
+/-- the carriage-return switch at source level: it is on exactly when the FIRST line's last field ends in a CR -/
+theorem delimCR_src (sep : Nat) (l0 : List Bytes) (ls : List (List Bytes)) (hne0 : l0 ≠ []) (hlast : l0.getLastD [] ≠ []) :
+    delimCR sep (l0 :: ls) = ((l0.getLastD []).getLast? == some 13) := by
+  obtain ⟨a, b, c⟩ := line_last_byte sep [] (dumpFile sep ls) l0 hne0 hlast
+  simp only [List.length_nil, List.nil_append] at a b c
+  unfold delimCR crFlag
+  simp only [lineGroups, List.head?_cons, Option.map_some, Option.getD_some, dumpFile, List.map_cons, List.flatten_cons]
+  simp only [dumpFile] at c
+  have hpos : ((lineDelims 0 l0).getLastD 0 != 0) = true := by
+    rw [a]; simp only [bne_iff_ne, ne_eq]; omega
+  rw [hpos, Bool.true_and, ← c]
+  simp
+
 end C04
